@@ -313,7 +313,7 @@ func init() {
 			hasMin, hasMax, usesTable, usesUserDefs := false, false, false, false
 			minF := c.LookupField("lint.aritySpec.min")
 			maxF := c.LookupField("lint.aritySpec.max")
-			tableVar := p.Types.Scope().Lookup("builtinArityTable")
+			tableVar := c.LookupPkgObj("lint.builtinArityTable")
 			var userDefsObj types.Object
 			ast.Inspect(lit.Body, func(n ast.Node) bool {
 				if as, ok := n.(*ast.AssignStmt); ok && len(as.Lhs) == 1 && len(as.Rhs) == 1 {
